@@ -123,6 +123,20 @@ theorem option_tables_within_model :
     ((Gen.shortOpts.filter (· ≠ 58)).all fun c => tokOf ⟨[], []⟩ (.opt c.toNat (some [])) != Tok.unknown) = true := by
   decide
 
+/-- generated-data obligations: `check_ctype` / `check_htype` tabulated through the compiled functions for -8 … 300 are the model's range
+    checks, and the `case` labels of `parseOpts` are exactly the option values the model of `parseOpts` handles (`m` has no label) -/
+theorem range_checks_are_the_compiled_ones :
+    ((List.range 309).all fun j => Gen.checkCtypeTable.getD j false == checkCtype ((j : Int) - 8)) = true ∧
+    ((List.range 309).all fun j => Gen.checkHtypeTable.getD j false == checkHtype ((j : Int) - 8)) = true ∧
+    Gen.checkCtypeTable.length = 309 ∧ Gen.checkHtypeTable.length = 309 := by
+  decide +kernel
+
+theorem parseOpts_case_labels_are_the_modelled_ones :
+    (Gen.parseOptsCases.all fun v => tokOf ⟨[], []⟩ (.opt v (some [])) != Tok.unknown && tokOf ⟨[], []⟩ (.opt v (some [])) != Tok.m []) = true ∧
+    ([101, 100, 118, 86, 104, 110, 105, 111, 107, 1, 2].all fun v => Gen.parseOptsCases.contains v) = true ∧
+    Gen.parseOptsCases.length = 11 := by
+  decide
+
 end argv
 
 end Wencry.Props.C17
